@@ -115,8 +115,22 @@ def build_recipe(rng, qt, src, twin=None):
     if twin is not None and rng.random() < 0.35:
       try:
         if rng.random() < 0.6:
-          qt.get_quantization_recipe()
+          got = qt.get_quantization_recipe()
           tried.append(('observe_export',))
+          if rng.random() < 0.5:
+            # ... and EDITS what it was handed (to derive a variant for another Quantizer): the exported object is the caller's now,
+            # nothing the Quantizer says or does later may change with it
+            for ent in got:
+              oc = ent.get('op_config') if isinstance(ent, dict) else None
+              if isinstance(oc, dict):
+                wt = oc.get('weight_tensor_config')
+                if isinstance(wt, dict):
+                  wt['num_bits'] = 4 if wt.get('num_bits') != 4 else 8
+                  wt['symmetric'] = not wt.get('symmetric', True)
+                oc['compute_precision'] = 'FLOAT'
+              if isinstance(ent, dict):
+                ent['regex'] = 'scribbled'
+            tried.append(('caller_edits_exported_recipe',))
         else:
           _ = qt.need_calibration
           tried.append(('observe_need_calibration',))
